@@ -727,3 +727,40 @@ def replay_figure_document(index, ob, seed, saved=None):
     finally:
         import shutil
         shutil.rmtree(tmp, ignore_errors=True)
+
+
+# ---- C11 -------------------------------------------------------------------------------------------
+def replay_text_conversion(index, ob, seed, saved=None):
+    """The real conversion functions (TextConverter, TextConversionService, TextContent) against the independent reference converter of
+    contracts/textconv.py on commands x templates and on texts with several tokens; the known '>=' / '<=' deviation is not reported here."""
+    from contracts.textconv import bounded_reference, reference_convert
+    table = dict(index.real_module("rtflite.dictionary.unicode_latex").latex_to_char)
+    conv = index.real_module("rtflite.text_conversion.converter").TextConverter()
+    svc = index.real_module("rtflite.services.text_conversion_service").TextConversionService()
+    rng = random.Random(seed)
+    cmds = list(table)
+    for _ in range(300):
+        parts = []
+        for _k in range(rng.randint(1, 4)):
+            parts.append(rng.choice([rng.choice(cmds), "\\notacommand", "plain", " ", "x{y}", "\\mathbb{Zq}", "a\\b", "12.5", "\\"]))
+        text = rng.choice(["", " ", "("]).join(parts)
+        want = reference_convert(text, table)
+        lit_only = text
+        for a in ("^", "_", ">=", "<=", "\n", "\\pagenumber", "\\totalpage", "\\pagefield"):
+            if a in text:
+                lit_only = None
+                break
+        if lit_only is None:
+            continue
+        for name, fn in (("TextConverter.convert_latex_to_unicode", conv.convert_latex_to_unicode), ("TextConversionService._convert_single_text", svc._convert_single_text),
+                         ("TextConversionService.convert_text_content", lambda t: svc.convert_text_content(t, True))):
+            got = fn(text)
+            if got != want:
+                return _r(True, input={"text": text}, observed=got, expected=want, function=name)
+        if svc.convert_text_content(text, False) != text:
+            return _r(True, input={"text": text, "enable_conversion": False}, observed=svc.convert_text_content(text, False), expected=text, function="convert_text_content")
+    res = bounded_reference(index, "quick", seed)
+    for f in res.get("failures", []):
+        if f["name"] != "comparison_sign_followed_by_extra_space":
+            return _r(True, input=f["input"], observed=f["observed"], expected=f["expected"], function="TextContent._convert_special_chars")
+    return _r(False, cases=res.get("cases"))
